@@ -139,6 +139,7 @@ func (c *SpyCall) CallResponse(f relay.RespFrame)        { c.log(fmt.Sprintf("ca
 func (c *SpyCall) Succeeded()                            { c.log("succeeded") }
 func (c *SpyCall) Failed(reason string) {
 	c.failed = append(c.failed, reason)
+	c.h.w.probe("relay.failed(" + reason + ")")
 	c.log("failed(" + reason + ")")
 }
 func (c *SpyCall) End() {
